@@ -1,8 +1,8 @@
 \* generated by props/_handshake.py (table CFGS) -- do not edit by hand
 SPECIFICATION Spec
 CONSTANTS
-  Nodes <- NodesM
-  Conns <- ConnsM
+  Nodes = {"A", "B", "D"}
+  Conns = {"c1", "c3", "c4", "c8", "d2"}
   Cl <- ClM
   Sv <- SvM
   Eph <- EphM
